@@ -600,7 +600,18 @@ func GenCase(tape *sim.Tape, crashBias bool) *Case {
 					continue
 				}
 				k := tape.Draw(6)
-				if k >= 4 {
+				if k == 4 {
+					// a FILE where the run needs a directory (left by an earlier run with another
+					// layout): the destinations below it cannot be written, the file is not a
+					// destination of this run and stays what it was, the other files are done
+					par := filepath.Dir(d)
+					if par != "." && par != "/" && par != filepath.Clean(iv.relOutput()) && t.Lookup(par) == nil && !iv.blockedBy(par) && !iv.blockedBy(d) {
+						t.Entries = append(t.Entries, Entry{Path: par, Kind: KFile, Data: []byte("a file of an earlier run, where this run needs a directory\n"), Mode: 0o644})
+						iv.Blockers = append(iv.Blockers, par)
+					}
+					continue
+				}
+				if k >= 4 || iv.blockedBy(d) {
 					continue
 				}
 				var src []byte
